@@ -93,6 +93,9 @@ type tcMon struct {
 	badFrame bool
 	badStack bool
 	maxFI    int
+	// the same counters restricted to the function with three parameters (the
+	// recursion family's f; its helpers have fewer)
+	tail3, fresh3 int
 }
 
 func (m *tcMon) poll() {
@@ -105,6 +108,9 @@ func (m *tcMon) poll() {
 		case cur.FramesIndex == m.prev.FramesIndex && cur.Fn == m.prev.Fn:
 			// re-entry of the same frame: a tail call
 			m.tailRe++
+			if cur.NumParams == 3 {
+				m.tail3++
+			}
 			if h, ok := m.height[cur.FramesIndex]; ok {
 				if cur.SP-cur.BasePointer != h {
 					m.badStack = true
@@ -112,6 +118,9 @@ func (m *tcMon) poll() {
 			}
 		case cur.FramesIndex == m.prev.FramesIndex+1:
 			m.fresh++
+			if cur.NumParams == 3 {
+				m.fresh3++
+			}
 			m.height[cur.FramesIndex] = cur.SP - cur.BasePointer
 		}
 	}
@@ -226,4 +235,82 @@ func C16_Deep() {
 	vf.Assert(c.Get("out").Int64() == want, "deep result equals the equivalent loop: "+sk.name)
 	vf.Assert(m.maxFI <= 3 && !m.badStack, "deep run stays in constant frame space: "+sk.name)
 	vf.Reach("deep")
+}
+
+// runRec runs one program of the recursion family under the frame monitor.
+func runRec(src string, a, b int64) (*tengo.Compiled, *tcMon, error) {
+	s := tengo.NewScript([]byte(src))
+	_ = s.Add("a", a)
+	_ = s.Add("b", b)
+	c, err := s.Compile()
+	vf.Assert(err == nil, "recursion-family program compiles: "+src)
+	vm := tengo.NewVM(tengo.VerifBytecode(c), tengo.VerifCompiledGlobals(c), -1)
+	m := &tcMon{vm: vm, height: map[int]int{}}
+	vf.SetHook("poll", m.poll)
+	err = vm.Run()
+	vf.SetHook("poll", nil)
+	return c, m, err
+}
+
+func recOutMatches(c *tengo.Compiled, r int64, undef bool, rest []int64) bool {
+	arr, ok := c.Get("out").Object().(*tengo.Array)
+	if !ok || len(arr.Value) != 1+len(rest) {
+		return false
+	}
+	acc := true
+	if undef {
+		acc = arr.Value[0] == tengo.UndefinedValue
+	} else {
+		iv, ok := arr.Value[0].(*tengo.Int)
+		if !ok {
+			return false
+		}
+		acc = iv.Value == r
+	}
+	for k, w := range rest {
+		iv, ok := arr.Value[1+k].(*tengo.Int)
+		if !ok {
+			return false
+		}
+		acc = vf.And(acc, iv.Value == w)
+	}
+	return acc
+}
+
+// C16_GenRec: the recursion family (gen2.go): f(i, n, acc) with six
+// per-activation preludes (closures over a parameter / a local / a
+// self-referencing local helper escaping the activation, a write through a
+// captured parameter, block-locals in sibling blocks), f global or local, every
+// form of the recursive call. For every form the result and the values the
+// escaped closures report equal the equivalent loop (recRef); the two
+// tail-position forms run in one frame: f is entered with a fresh frame once
+// and re-entered in place once per further activation.
+func C16_GenRec() {
+	pre := vf.Choice("pre", len(recPre))
+	step := vf.Choice("step", len(recStep))
+	bind := vf.Choice("bind", 2)
+	a, b := vf.Int64("a"), vf.Int64("b")
+	name := recPreNames[pre] + "/" + recStepNames[step]
+	c, m, err := runRec(recSrc(pre, step, bind), a, b)
+	vf.Assert(err == nil, "recursion-family program runs without error: "+name)
+	n := a & 3
+	r, undef, rest := recRef(pre, step, n, b)
+	vf.Assert(recOutMatches(c, r, undef, rest), "result and captured values equal the equivalent loop: "+name)
+	vf.Assert(!m.badStack, "operand-stack height at tail re-entry equals height at first entry: "+name)
+	if step == 0 || step == 5 {
+		if vf.Symbolic() {
+			// the VM probe exists only in the engine
+			vf.Assert(m.fresh3 == 1, "a self tail call opens no new frame: "+name)
+			vf.Assert(int64(m.tail3) == n, "every further activation re-enters the frame in place: "+name)
+		} else {
+			cd, _, errd := runRec(recSrcD(pre, step, bind, recCall, "3000"), 0, b)
+			vf.Assert(errd == nil, "self tail call completes at depth 3000 (native): "+name)
+			rd, ud, restd := recRef(pre, step, 3000, b)
+			vf.Assert(recOutMatches(cd, rd, ud, restd), "deep native result equals the equivalent loop: "+name)
+		}
+	} else if step != 1 && vf.Symbolic() {
+		// not in tail position: one frame per activation
+		vf.Assert(int64(m.fresh3) == n+1, "a self call that is not in tail position gets its own frame: "+name)
+	}
+	vf.Reach("genrec")
 }
